@@ -416,3 +416,33 @@ pub fn shard_or_spawn(cmd: &str, args: &Args) -> Option<(u64, u64)> {
 pub fn in_shard(idx: usize, shard: (u64, u64)) -> bool {
     (idx as u64) % shard.1 == shard.0
 }
+
+/// Run one case; a panic that escapes from the code under test while it is being observed
+/// (e.g. `Ontology::iter()` panicking) is DATA: it becomes a violation of the property, never a
+/// crash of the harness.
+pub fn guard_case(st: &mut Stats, prop: &str, cmd: &str, line: &Value, f: impl FnOnce(&mut Stats)) {
+    let before = st.violations.len();
+    let r = panic::catch_unwind(AssertUnwindSafe(|| f(st)));
+    if let Err(e) = r {
+        let msg = if let Some(s) = e.downcast_ref::<&str>() {
+            (*s).to_string()
+        } else if let Some(s) = e.downcast_ref::<String>() {
+            s.clone()
+        } else {
+            "panic".to_string()
+        };
+        if st.violations.len() == before {
+            let mut l = line.clone();
+            for k in ["bytes", "lbytes", "rbytes"] {
+                if l.get(k).is_some() && arr(&l[k]).len() > 4000 {
+                    l[k] = Value::from("...");
+                }
+            }
+            st.violations.push(Violation {
+                property: prop.to_string(),
+                what: format!("panic while the ontology was observed through the public read API: {msg}"),
+                replay: serde_json::json!({"cmd": cmd, "property": prop, "line": l, "diffs": [format!("panic: {msg}")]}),
+            });
+        }
+    }
+}
